@@ -75,6 +75,13 @@ func (t *Tokenizer) TokenizeWithLimits(limits TokenizerLimits, input *ast.Input)
 			t.currentToken = -1
 			return TokenizerStats{TotalDepth: globalDepth + localDepthPeak, TotalFields: fieldsCount}, nil
 		case keyword.LBRACE:
+			if localDepth <= 0 && localDepthPeak > 0 {
+				// a top-level brace after a completed definition (e.g. a shorthand query following a
+				// fragment definition): keep the finished definition's peak in the cumulative depth
+				globalDepth += localDepthPeak
+				localDepth = 0
+				localDepthPeak = 0
+			}
 			globalDepth++
 			if limitDepth && globalDepth > limits.MaxDepth {
 				return TokenizerStats{TotalDepth: globalDepth + localDepthPeak, TotalFields: fieldsCount}, ErrDepthLimitExceeded{
